@@ -305,7 +305,7 @@ func fmtProof(p *ics23.CommitmentProof) string {
 
 // proof oracle: the verdict of the real ics23 verifier under IavlSpec on the genuine claim, and the
 // number of false claims it accepts (other value, other key, opposite kind, other roots).
-func proofOracle(t *iavl.ImmutableTree, p *ics23.CommitmentProof, key []byte, others []*iavl.ImmutableTree) string {
+func proofOracle(t *iavl.ImmutableTree, p *ics23.CommitmentProof, key []byte, others []*iavl.ImmutableTree, helpers bool) string {
 	root := t.Hash()
 	pos, neg := 0, 0
 	if e := p.GetExist(); e != nil {
@@ -358,6 +358,11 @@ func proofOracle(t *iavl.ImmutableTree, p *ics23.CommitmentProof, key []byte, ot
 	}
 	// the tree's own verification helpers must agree with the verdict on the genuine claim and refuse
 	// the claim for a neighbouring key
+	// (only for committed versions: on the uncommitted working tree the helpers read through
+	// ImmutableTree.Get, which does not see uncommitted writes - outside the property)
+	if !helpers {
+		return fmt.Sprintf("v=%d neg=%d root=%s", pos, neg, enc(root))
+	}
 	tv := 0
 	if ok, err := t.VerifyProof(p, key); err == nil && ok {
 		tv = 1
@@ -486,7 +491,7 @@ func (s *session) immOp(t *iavl.ImmutableTree, args []string) string {
 				}
 			}
 		}
-		return fmtProof(p) + " ## " + proofOracle(t, p, key, others)
+		return fmtProof(p) + " ## " + proofOracle(t, p, key, others, !(s.tree != nil && t == s.tree.ImmutableTree))
 	case "export":
 		// export plain|zip [store=<id>]
 		ex, err := t.Export()
@@ -809,7 +814,7 @@ func (s *session) exec(args []string) string {
 		if err != nil {
 			return "err"
 		}
-		return fmtProof(p) + " ## " + proofOracle(it, p, dec(args[1]), nil)
+		return fmtProof(p) + " ## " + proofOracle(it, p, dec(args[1]), nil, true)
 	case "savecs": // savecs k=v,del:k,...
 		cs := &iavl.ChangeSet{}
 		if len(args) > 1 && args[1] != "-" {
